@@ -14,6 +14,12 @@ pub fn vf_runtime_assert(c: bool)
     ensures c,
 { assert!(c) }
 
+// panic!(..) / unreachable!(..) / unimplemented!(..) / todo!(..): never returns; reachable only in the guard reading
+#[verifier::external_body]
+pub fn vf_runtime_panic() -> !
+    requires !strict(),
+{ panic!() }
+
 // ---- R11: build configurations.  `debug_assert!(c)` must be PROVED (it panics in debug builds) but may not be ASSUMED
 // afterwards (it does not run in release builds); code under `#[cfg(debug_assertions)]` / `cfg!(debug_assertions)` is
 // verified in both configurations through an arbitrary boolean.
